@@ -1163,3 +1163,7 @@ B('OP-axis-skipna-dates-drop-out', ['C15'], 'util.py', 'ufunc_axis_skipna',
 N('OP-logical-empty-guard-flipped', ['C15'], 'util.py', '_ufunc_logical_skipna',
   '        if out is not None:\n            out[NULL_SLICE] = ufunc == np.all\n            return out\n        return ufunc == np.all',
   '        if out is None:\n            return ufunc == np.all\n        out[NULL_SLICE] = ufunc == np.all\n        return out')
+
+B('NM-array-cast-unchecked', ['C04'], 'index.py', 'Index._loc_to_iloc',
+  '                    if key_src.dtype.kind not in DTYPE_INT_KINDS and not (key == key_src).all(): #type: ignore\n                        # a value that is not equal to an integer is not a label\n                        raise KeyError(key_src[key != key_src][0]) #type: ignore\n',
+  '', 'I.nomap-negative-label-raises', '_loc_to_iloc')
